@@ -404,6 +404,8 @@ impl Module {
         // take some time, so parse all function bodies in parallel.
         let results = maybe_parallel!(bodies.(into_iter | into_par_iter))
             .map(|(id, body, args, ty, validator)| {
+                #[cfg(feature = "verif-hooks")]
+                let _verif_span = crate::verif::span("parse_function", id.index());
                 (
                     id,
                     LocalFunction::parse(
@@ -617,6 +619,8 @@ impl Emit for ModuleFunctions {
         // functions together.
         let bytes = maybe_parallel!(functions.(into_iter | into_par_iter))
             .map(|(id, func, _size)| {
+                #[cfg(feature = "verif-hooks")]
+                let _verif_span = crate::verif::span("emit_function", id.index());
                 log::debug!("emit function {:?} {:?}", id, cx.module.funcs.get(id).name);
                 let mut wasm = Vec::new();
                 let mut map = if generate_map { Some(Vec::new()) } else { None };
